@@ -19,6 +19,138 @@ use chumsky_verif_harness::build::*;
 use chumsky_verif_harness::run::{mapped_tokens, run_one};
 use chumsky_verif_harness::val::*;
 
+#[path = "pratt.rs"]
+#[allow(dead_code)]
+mod pratt;
+
+/// `EX` lines: several extensions at once (model: `Model/Ext.lean`); `call i` is extension `i` everywhere
+///   EX <id> <ek> <gap> <mode> <fuel> T <ngroups> (<gid> <n> kids..)* X <n> ( P A <atom> O <nops> <op>.. | N A <a> B <b> )* M <main> I <inputspec>
+enum ExtK {
+    Pratt(G, Vec<(pratt::OpK, G)>),
+    Nested(G, G),
+}
+
+struct ECase {
+    id: String,
+    ek: String,
+    gap: usize,
+    mode: ModeK,
+    groups: Vec<(u32, Vec<u32>)>,
+    exts: Vec<ExtK>,
+    main: G,
+    inputs: Vec<Vec<u32>>,
+}
+
+fn read_ecase(rest: &str) -> Result<ECase, String> {
+    let mut rd = Rd::new(rest);
+    let id = rd.tok()?.to_string();
+    let ek = rd.tok()?.to_string();
+    let gap = rd.nat()? as usize;
+    let mode = match rd.tok()? {
+        "parse" => ModeK::Parse,
+        "check" => ModeK::Check,
+        t => return Err(format!("bad mode {t}")),
+    };
+    let _fuel = rd.nat()?;
+    if rd.tok()? != "T" {
+        return Err("expected T".into());
+    }
+    let ng = rd.nat()?;
+    let mut groups = Vec::new();
+    for _ in 0..ng {
+        let gid = rd.nat()? as u32;
+        let kids = rd.nat_list()?;
+        groups.push((gid, kids));
+    }
+    if rd.tok()? != "X" {
+        return Err("expected X".into());
+    }
+    let nx = rd.nat()?;
+    let mut exts = Vec::new();
+    for _ in 0..nx {
+        match rd.tok()? {
+            "P" => {
+                if rd.tok()? != "A" {
+                    return Err("expected A".into());
+                }
+                let atom = rd.g()?;
+                if rd.tok()? != "O" {
+                    return Err("expected O".into());
+                }
+                let n = rd.nat()?;
+                let mut ops = Vec::new();
+                for _ in 0..n {
+                    ops.push(pratt::read_op(&mut rd)?);
+                }
+                exts.push(ExtK::Pratt(atom, ops));
+            }
+            "N" => {
+                if rd.tok()? != "A" {
+                    return Err("expected A".into());
+                }
+                let a = rd.g()?;
+                if rd.tok()? != "B" {
+                    return Err("expected B".into());
+                }
+                exts.push(ExtK::Nested(a, rd.g()?));
+            }
+            t => return Err(format!("bad extension kind {t}")),
+        }
+    }
+    if rd.tok()? != "M" {
+        return Err("expected M".into());
+    }
+    let main = rd.g()?;
+    if rd.tok()? != "I" {
+        return Err("expected I".into());
+    }
+    let inputs = rd.inputs()?;
+    Ok(ECase { id, ek, gap, mode, groups, exts, main, inputs })
+}
+
+fn run_ecase<'src, E: HErr<'src, MappedSlice<'src>>>(
+    c: &ECase,
+    groups: &'src Groups,
+    data: &'src [(Vec<(char, Sp)>, Sp)],
+    w: &mut dyn Write,
+) {
+    let built = std::panic::catch_unwind(std::panic::AssertUnwindSafe(|| {
+        let mut holes: Vec<Rec<'src, MappedSlice<'src>, E>> =
+            c.exts.iter().map(|_| chumsky::recursive::Recursive::declare()).collect();
+        let cx: Cx<'src, MappedSlice<'src>, E> = Cx { defs: holes.iter().map(|h| h.clone().boxed()).collect(), base: 0 };
+        for (i, x) in c.exts.iter().enumerate() {
+            match x {
+                ExtK::Pratt(atom, ops) => {
+                    let p = pratt::build_table_in(if i % 2 == 0 { "v" } else { "t" }, atom, ops, &cx);
+                    holes[i].define(p);
+                }
+                ExtK::Nested(a, b) => {
+                    let pa = build(a, &cx);
+                    let pb = build(b, &cx).map(move |v: Val| -> MappedSlice<'src> {
+                        let t = group_of(&v).expect("harness: nested_in token parser did not yield a token");
+                        let (toks, eoi) = groups.get(&t).expect("harness: not a group token");
+                        let f: fn(&'src (char, Sp)) -> (&'src char, &'src Sp) = proj_pair;
+                        chumsky::input::Input::map(&toks[..], *eoi, f)
+                    });
+                    holes[i].define(pa.nested_in(pb));
+                }
+            }
+        }
+        build(&c.main, &cx)
+    }));
+    for k in 0..data.len() {
+        let obs = match &built {
+            Ok(p) => {
+                let f: fn(&'src (char, Sp)) -> (&'src char, &'src Sp) = proj_pair;
+                let inp: MappedSlice<'src> = chumsky::input::Input::map(&data[k].0[..], data[k].1, f);
+                run_one::<MappedSlice<'src>, E>(p, c.mode, inp)
+            }
+            Err(_) => "P harness-build".to_string(),
+        };
+        let _ = writeln!(w, "{}.{} M {}", c.id, k, obs);
+    }
+}
+
 pub enum NG {
     Lift(G),
     Nest(Box<NG>, G),
@@ -248,6 +380,26 @@ pub fn main() {
     let mut w = std::io::BufWriter::new(stdout.lock());
     for line in stdin.lock().lines() {
         let Ok(line) = line else { break };
+        if let Some(rest) = line.strip_prefix("EX ") {
+            match read_ecase(rest) {
+                Err(e) => {
+                    let _ = writeln!(w, "ERR {e} :: {line}");
+                }
+                Ok(c) => {
+                    let mut groups: Groups = HashMap::new();
+                    for (gid, kids) in &c.groups {
+                        groups.entry(*gid).or_insert_with(|| mapped_tokens(kids, c.gap));
+                    }
+                    let data: Vec<(Vec<(char, Sp)>, Sp)> = c.inputs.iter().map(|ts| mapped_tokens(ts, c.gap)).collect();
+                    if c.ek == "empty" {
+                        run_ecase::<chumsky::error::EmptyErr>(&c, &groups, &data, &mut w);
+                    } else {
+                        run_ecase::<Rich<'_, char, Sp>>(&c, &groups, &data, &mut w);
+                    }
+                }
+            }
+            continue;
+        }
         if let Some(rest) = line.strip_prefix("NH ") {
             match read_hcase(rest) {
                 Err(e) => {
